@@ -456,6 +456,27 @@ pub fn run_line(line: &str) -> String {
             )
         }
         ["utf8", hexd] => show_bool(std::str::from_utf8(&unhex(hexd)).is_ok()).to_string(),
+        ["acc", "versym", v] => {
+            let vi = elf::gnu_symver::VersionIndex(nat(v) as u16);
+            format!(
+                "{},{},{},{}",
+                vi.index(),
+                show_bool(vi.is_local()),
+                show_bool(vi.is_global()),
+                show_bool(vi.is_hidden())
+            )
+        }
+        ["acc", "sym", info, other, shndx] => {
+            let s = Symbol {
+                st_name: 0,
+                st_shndx: nat(shndx) as u16,
+                st_info: nat(info) as u8,
+                st_other: nat(other) as u8,
+                st_value: 0,
+                st_size: 0,
+            };
+            format!("{},{},{},{}", show_bool(s.is_undefined()), s.st_symtype(), s.st_bind(), s.st_vis())
+        }
         ["ident", sp, hexd] => {
             let d = unhex(hexd);
             dispatch_spec!(*sp, run_ident, &d)
